@@ -46,6 +46,6 @@ META = dict(
          "into the bracket (rounding could put it one ulp outside and it could be returned), Piecewise exact at the right knot and "
          "never past the neighbouring table value.",
     technique="Lean 4 proof (induction over iterations/fuel and over the trial list; list induction for the table) + differential "
-              "correspondence model vs real code with logged callbacks + property oracle in floating point",
+              "correspondence model vs real code with logged callbacks + property oracle in floating point + model regenerated from the Go source on every run by a translator (gen_eq_* theorems tie it to the hand-written model) + regenerated structural facts as proof obligations with a race-detector probe for a witness",
 )
 READY = True
